@@ -173,7 +173,15 @@ class Tracer:
 STAGES = ("closed", "loops", "branches")
 
 
-def build_scfg(named: Dict[str, List[str]], mk: Optional[Callable[[str, tuple], Any]] = None) -> SCFG:
+def build_scfg(named: Dict[str, List[str]], mk: Optional[Callable[[str, tuple], Any]] = None, used_generator: bool = False) -> SCFG:
+    if used_generator:
+        # a generator that has already served another graph (it has handed out names before this graph exists)
+        from numba_scfg.core.datastructures.scfg import NameGenerator
+
+        gen = NameGenerator()
+        other = SCFG(graph={"p": bb.BasicBlock(name="p", _jump_targets=("q",)), "q": bb.BasicBlock(name="q")}, name_gen=gen)
+        other.name_gen.new_block_name("synth_tail")
+        return SCFG(graph={n: bb.BasicBlock(name=n, _jump_targets=tuple(ss)) for n, ss in named.items()}, name_gen=gen)
     blocks = {}
     for n, ss in named.items():
         if mk is None:
